@@ -2,6 +2,10 @@
 pub use crate::data::*;
 
 pub use crate::pipeline::parser::Token;
+//@[ T8: assumed structural contract of the derived Clone
+use vstd::prelude::*;
+pub assume_specification[ <Attribute as Clone>::clone ](x: &Attribute) -> (r: Attribute) ensures r == *x;
+//@]
 
 #[derive(Clone, Debug, PartialEq, Eq, Hash)]
 pub struct Ident {
@@ -15,6 +19,9 @@ pub struct TerminalIdent {
     pub dollarless_position: ByteIndex,
 }
 
+//@[ T8: derived Clone kept external; structural contract assumed
+#[verifier::external_derive(Clone)]
+//@]
 #[derive(Clone, Debug, PartialEq, Eq, Hash)]
 pub struct Attribute {
     pub src: String,
